@@ -34,31 +34,31 @@ import (
 
 // Step is the union of the step vocabularies of the clustersim scenarios.
 type Step struct {
-	Op      string `json:"op"`
-	DelayMs int    `json:"delay_ms,omitempty"`
-	Peer    int    `json:"peer,omitempty"`   // acting cluster peer
-	Target  int    `json:"target,omitempty"` // peer a metric belongs to / failing peer
-	Cid     int    `json:"cid,omitempty"`
-	From    int    `json:"from,omitempty"` // update source cid index (+1; 0 = none)
-	RMin    int    `json:"rmin,omitempty"`
-	RMax    int    `json:"rmax,omitempty"`
-	Name    string `json:"name,omitempty"`
-	Direct  bool   `json:"direct,omitempty"`
-	ExpireS int    `json:"expire_s,omitempty"` // seconds relative to now (0 = none)
-	Meta    []string `json:"meta,omitempty"`   // k=v
-	User    []int  `json:"user,omitempty"`     // user (priority) allocations
-	Origins int    `json:"origins,omitempty"`
-	OriginIx []int `json:"origin_ix,omitempty"` // explicit origin list (indices into a pool of 5 addresses)
-	Allocs  []int  `json:"allocs,omitempty"` // seeded allocations
-	Value   string `json:"value,omitempty"`
-	Valid   bool   `json:"valid,omitempty"`
-	TTLMs   int    `json:"ttl_ms,omitempty"`
-	Type    string `json:"type,omitempty"` // seeded pin type
-	Path    bool   `json:"path,omitempty"`
-	Via     string `json:"via,omitempty"` // alert | remove
-	Order   []int  `json:"order,omitempty"`
-	N       int    `json:"n,omitempty"`
-	Overlap bool   `json:"overlap,omitempty"`
+	Op       string   `json:"op"`
+	DelayMs  int      `json:"delay_ms,omitempty"`
+	Peer     int      `json:"peer,omitempty"`   // acting cluster peer
+	Target   int      `json:"target,omitempty"` // peer a metric belongs to / failing peer
+	Cid      int      `json:"cid,omitempty"`
+	From     int      `json:"from,omitempty"` // update source cid index (+1; 0 = none)
+	RMin     int      `json:"rmin,omitempty"`
+	RMax     int      `json:"rmax,omitempty"`
+	Name     string   `json:"name,omitempty"`
+	Direct   bool     `json:"direct,omitempty"`
+	ExpireS  int      `json:"expire_s,omitempty"` // seconds relative to now (0 = none)
+	Meta     []string `json:"meta,omitempty"`     // k=v
+	User     []int    `json:"user,omitempty"`     // user (priority) allocations
+	Origins  int      `json:"origins,omitempty"`
+	OriginIx []int    `json:"origin_ix,omitempty"` // explicit origin list (indices into a pool of 5 addresses)
+	Allocs   []int    `json:"allocs,omitempty"`    // seeded allocations
+	Value    string   `json:"value,omitempty"`
+	Valid    bool     `json:"valid,omitempty"`
+	TTLMs    int      `json:"ttl_ms,omitempty"`
+	Type     string   `json:"type,omitempty"` // seeded pin type
+	Path     bool     `json:"path,omitempty"`
+	Via      string   `json:"via,omitempty"` // alert | remove
+	Order    []int    `json:"order,omitempty"`
+	N        int      `json:"n,omitempty"`
+	Overlap  bool     `json:"overlap,omitempty"`
 }
 
 type H struct{}
@@ -123,7 +123,7 @@ type world struct {
 	plan    *simkit.Plan
 	net     *simkit.Net
 	sh      *simkit.SharedPinset
-	nodes   []*node  // real cluster peers
+	nodes   []*node   // real cluster peers
 	allIDs  []peer.ID // real + virtual members
 	cids    []cid.Cid
 	baseDir string
@@ -132,17 +132,19 @@ type world struct {
 }
 
 type worldOpts struct {
-	real      int // real cluster peers
-	members   int // total members (>= real); the rest are virtual (IDs with metrics only)
-	rmin      int
-	rmax      int
-	follower  bool
-	noRepin   bool
-	allocator string // ascend | descend
-	ncids     int
-	pingMs    int
-	infTTL    time.Duration
-	syncEvery time.Duration
+	real     int // real cluster peers
+	members  int // total members (>= real); the rest are virtual (IDs with metrics only)
+	rmin     int
+	rmax     int
+	follower bool
+	// followerIdx+1: that one peer alone runs in follower mode (0: none)
+	followerOne int
+	noRepin     bool
+	allocator   string // ascend | descend
+	ncids       int
+	pingMs      int
+	infTTL      time.Duration
+	syncEvery   time.Duration
 	// realInformers: use informer/disk and informer/numpin (over the model IPFS) instead of the model informer
 	realInformers bool
 	diskTTL       time.Duration
@@ -180,7 +182,7 @@ func newWorld(run *simkit.Run, plan *simkit.Plan, o worldOpts) *world {
 		os.MkdirAll(filepath.Join(w.baseDir, fmt.Sprintf("p%d", i)), 0o755)
 		cfg.MDNSInterval = 0
 		cfg.ReplicationFactorMin, cfg.ReplicationFactorMax = o.rmin, o.rmax
-		cfg.FollowerMode = o.follower
+		cfg.FollowerMode = o.follower || (o.followerOne > 0 && o.followerOne-1 == i)
 		cfg.DisableRepinning = o.noRepin
 		cfg.LeaveOnShutdown = false
 		cfg.StateSyncInterval = 100 * time.Hour
@@ -271,11 +273,11 @@ func (w *world) logMetric(only int, target int, value string, valid bool, ttl ti
 // health is the oracle's own reading of the monitor table at this instant.
 type health struct {
 	boundary bool
-	present bool
-	valid   bool
-	fresh   bool
-	numeric bool
-	value   uint64
+	present  bool
+	valid    bool
+	fresh    bool
+	numeric  bool
+	value    uint64
 }
 
 func (h health) healthy() bool { return h.present && h.valid && h.fresh }
